@@ -1775,6 +1775,9 @@ def _offset(
                     a.lineno = flno + dln
                     a.col_offset = fcolo + dcol_offset
 
+            elif dln and (flno := getattr(a, 'lineno', None)) is not None and flno >= lno:  # TypeIgnore, just a line number, the comment is the last thing on its line so if it is on the line of the offset point then it is after it
+                a.lineno = flno + dln
+
             if recurse:
                 stacks.append(stack)
 
